@@ -60,4 +60,9 @@ def units(ctx):
     us += [_cu3(c, world_setup=_c3.setup)
            for c in _c3.predicate_contracts() + _c3.wrapper_contracts()
            if 'C11' in c.serves]
+    # a function's (possibly lazy) result is handed on untouched
+    from contracts import runner as _r5
+    from vlib.pyvc.unit import contract_unit as _cu5
+    us += [_cu5(c, world_setup=_r5.setup_call)
+           for c in _r5.call_contracts()]
     return us
